@@ -81,6 +81,27 @@ func genCase(t *rapid.T, env *ev.Env) Case {
 				{Kind: prog.OpMpuComplete, Upload: prog.LastUpload}, {Kind: prog.OpDelete, B: 0, K: 1}, {Kind: prog.OpGC},
 				{Kind: prog.OpPut, B: 0, K: 0, Body: body}, {Kind: prog.OpDelete, B: 0, K: 2}, {Kind: prog.OpGC},
 			}
+			if rapid.IntRange(0, 3).Draw(t, "fragRepeat") == 1 {
+				// an object that references one part id twice (identical chunk appended / two identical
+				// multipart parts), relabelled between classes twice, then outlived by a sibling with
+				// the same content (seeded defect S-C14-1: per-row vs per-id reference counting)
+				cl := func(l string) *string {
+					c := rapid.SampledFrom([]string{"STANDARD", "GLACIER", "STANDARD_IA", "REDUCED_REDUNDANCY"}).Draw(t, l)
+					return &c
+				}
+				build := []prog.Op{{Kind: prog.OpPut, B: 0, K: 0, Body: body}, {Kind: prog.OpAppend, B: 0, K: 0, Body: body}}
+				if rapid.Bool().Draw(t, "fragRepeatMpu") {
+					build = []prog.Op{{Kind: prog.OpMpuCreate, B: 0, K: 0},
+						{Kind: prog.OpMpuPart, Upload: prog.LastUpload, PartNo: 1, Body: body},
+						{Kind: prog.OpMpuPart, Upload: prog.LastUpload, PartNo: 2, Body: body},
+						{Kind: prog.OpMpuComplete, Upload: prog.LastUpload}}
+				}
+				frag = append(build,
+					prog.Op{Kind: prog.OpTransition, B: 0, K: 0, Class: cl("fragC1")}, prog.Op{Kind: prog.OpGC},
+					prog.Op{Kind: prog.OpTransition, B: 0, K: 0, Class: cl("fragC2")}, prog.Op{Kind: prog.OpGC},
+					prog.Op{Kind: prog.OpPut, B: 0, K: 1, Body: body}, prog.Op{Kind: prog.OpDelete, B: 0, K: 0}, prog.Op{Kind: prog.OpGC},
+				)
+			}
 			var kept []prog.Op
 			for i := range frag {
 				if rapid.IntRange(0, 7).Draw(t, "fragKeep") > 0 {
